@@ -249,6 +249,33 @@ func oracleC18(r *Rng, n int, thorough bool, seeds []string) *OracleResult {
 	for k := 0; k < 8 && n > 0; k++ {
 		checkWriteHistory(NewRng(r.U64()))
 	}
+	if n > 0 {
+		// a LONG history on one connection: 66000 datagrams to one peer - more than a 16-bit
+		// counter holds -, every frame verified (seeded change C18-8: datagrams numbered in
+		// the identification field, the header checksum patched with a plain subtraction
+		// that is wrong once the number exceeds the checksum)
+		rr := NewRng(r.U64())
+		src := &net.UDPAddr{IP: net.IP{10, 0, byte(rr.Intn(256)), 1}, Port: 68}
+		peer := &net.UDPAddr{IP: net.IP{10, 0, 0, byte(rr.Range(2, 250))}, Port: 67}
+		sc := &scriptConn{}
+		c := nclient4.NewBroadcastUDPConn(sc, src)
+		line := fmt.Sprintf("rawwr-long-history src=%s peer=%s writes=66000", showAddr(src), showAddr(peer))
+		res.Evaluations++
+		res.Tags["write-history-66000-datagrams"]++
+		payload := rr.Bytes(8)
+		for k := 0; k < 66000; k++ {
+			sc.writes = sc.writes[:0]
+			payload[0] = byte(k)
+			if _, err := c.WriteTo(payload, peer); err != nil || len(sc.writes) != 1 {
+				fail(Failure{Oracle: "c18", Input: line, What: fmt.Sprintf("write %d of a long history failed: %v", k+1, err), Class: "C18/write-count"})
+				break
+			}
+			if what, class, _ := verifyWrittenFrame(sc.writes[0].frame, payload, peer, src); what != "" {
+				fail(Failure{Oracle: "c18", Input: line, What: fmt.Sprintf("write %d of 66000 on one connection: %s", k+1, what), Class: class})
+				break
+			}
+		}
+	}
 	checkCW := func(sc *rawCWScenario) {
 		line := rawCWLine(sc)
 		res.Evaluations++
